@@ -1,4 +1,5 @@
 import BasicModel.Proto
+import BasicModel.Spec.IntSpec
 /-
   Line protocol: one request per line, one answer per line (DESIGN §6.1).
 -/
@@ -51,8 +52,28 @@ def answerOp (name : String) (args : List String) : String :=
       | [a, b], _, some f => showRes (f a b)
       | _, _, _ => "bad-op"
 
+def showSpecInt : Option (Except Nat Int) → String
+  | none => "no-spec"
+  | some (.ok z) => s!"ok I{z}"
+  | some (.error c) => s!"err {c}@-:0-0;"
+
+def readInt (s : String) : Option Int :=
+  match s.toList with
+  | 'I' :: r => (String.ofList r).toInt?
+  | _ => none
+
+def answerSpec : List String → String
+  | ["int", op, a, b] => (match readInt a, readInt b with
+      | some a, some b => showSpecInt (Spec.intBin op a b)
+      | _, _ => "bad-val")
+  | ["int", op, a] => (match readInt a with
+      | some a => showSpecInt (Spec.intUn op a)
+      | none => "bad-val")
+  | _ => "bad-request"
+
 def answer (line : String) : String :=
   match line.splitOn " " with
+  | "SPEC" :: rest => answerSpec rest
   | "OP" :: name :: args => answerOp name args
   | ["FMT", v] => (match readVal v with
       | some v => "ok T" ++ hexOfStr v.display
